@@ -34,17 +34,20 @@ theorem panic_sites_ok : (Facts.panicSites.all fun s => s.2.2.2.all okPanicArg) 
 /-- Returned errors are built from constants and numbers only. -/
 theorem errorf_sites_ok : (Facts.errorfSites.all fun s => s.2.2.2.all okErrorArg) = true := by decide
 
-/-- The complete list of output sites, for the record: two rounding warnings (constants), the
-impossible-alphabet warning (a count), the duplicate-words notice (a count, on stderr). -/
+/-- Every output site has one of three shapes — a constant through the log (the two rounding
+warnings), a constant format with a count on standard output (the impossible-alphabet warning),
+a constant format with a count on standard error (the duplicate-words notice). Which function
+the site is in does not matter. -/
 theorem output_sites_list :
-    Facts.outputSites.map (fun s => (s.2.1, s.2.2.1)) =
-      [("CharRecipe.SuccessProbability", "log.Println"), ("CharRecipe.SuccessProbability", "log.Println"),
-       ("entropySimple", "fmt.Printf"), ("NewWordList", "fmt.Fprintf")] := by decide
+    (Facts.outputSites.all fun s =>
+      [("log.Println", ["const"]), ("fmt.Printf", ["const", "numeric:int"]),
+       ("fmt.Fprintf", ["stream:os.Stderr", "const", "numeric:int"])].contains (s.2.2.1, s.2.2.2)) = true := by decide
 
-/-- The duplicate-words notice goes to standard error (repair fd19625), not standard output. -/
+/-- The duplicate-words notice goes to standard error (repair fd19625), not standard output:
+every `Fprint*` names `os.Stderr`. -/
 theorem notice_on_stderr :
-    (Facts.outputSites.filter fun s => s.2.1 == "NewWordList").map (fun s => s.2.2.2.head?) =
-      [some "stream:os.Stderr"] := by decide
+    ((Facts.outputSites.filter fun s => ["fmt.Fprintf", "fmt.Fprintln", "fmt.Fprint"].contains s.2.2.1).all
+      fun s => s.2.2.2.head? == some "stream:os.Stderr") = true := by decide
 
 /-! ### Diagnostics are a function of the recipe -/
 
